@@ -183,6 +183,19 @@ func main() {
 					}
 				}
 			}
+			if c.has("judge") {
+				// generic predicate on the observed outcome sequence (evaluated on the implementation's own behaviour)
+				name := c.str("judge")
+				if jf, ok := judges[name]; ok {
+					sum.WithSpec++
+					if !jf(impl) {
+						sum.JudgeFail++
+						if len(sum.Mismatches) < *maxMis {
+							sum.Mismatches = append(sum.Mismatches, Mismatch{c.ID, "judge", c.Cls, c.Tag, c.Do, impl, c.Model, "<judge:" + name + ">", c.Line})
+						}
+					}
+				}
+			}
 			if impl != c.Model {
 				sum.CorrFail++
 				if len(sum.Mismatches) < *maxMis {
